@@ -78,6 +78,12 @@ def container_family(rep, tier, rng, gts):
     nvalid = len(impl_lines)
     odd = ["|0/1", "/0|1", "+1/0", "00/1", "0//1", "/", "0/", "|", "a/b", "-1/0", "0/1/", "01", "1/+0", "./+1", "..", "./..", "0/.1",
            "18446744073709551615/0", "18446744073709551616/0", "0|18446744073709551616", "99999999999999999999", "0 /1", "0/x", "|.", "/1", "|1/1"]
+    # every GT text of exactly three bytes over digits, the missing value and the separators (a shortcut for "short" genotypes
+    # must still see that `100` is one allele, not 1/0 with something in between), and multi-digit indices in every position
+    import itertools as _it
+    odd += [t for t in ("".join(x) for x in _it.product("0129./|", repeat=3)) if t not in odd]
+    odd += ["10", "11", "100", "101", "110", "111", "120", "200", "1000", "0100", "100/1", "1/100", "10/10", "10|1", "1|10", "100|100", "1/0/0", "10/0/1", "1.0", "1/0.", "1//", "//1"]
+    odd = list(dict.fromkeys(odd))
     for t in odd:
         vcf = render_vcf(["a", "b"], [[t, "0/1"], ["0/0", "1/1"]])
         add("vcf", None, vcf, [[t.encode(), b"0/1"], [b"0/0", b"1/1"]], "vcf odd GT text %r" % t)
